@@ -24,6 +24,7 @@ ASSUMPTIONS = ["identifier texts passed to the public store() are unique unless 
 
 USERS = ["alice", "bob"]
 SPS = ["https://sp1.example.org/md", "https://sp2.example.org/md"]
+SPS_WIDE = SPS + ["https://sp3.example.org/md", ""]      # "" = no SP qualifier (random histories and the unqualified family)
 NQ = "https://idp.example.org/md"
 
 
@@ -103,19 +104,19 @@ class Harness(object):
 
     def op_transient(self, u, sp):
         nid = self.db.transient_nameid(u, sp, NQ)
-        if nid.format != self.TRANS or nid.sp_name_qualifier != sp:
+        if nid.format != self.TRANS or (nid.sp_name_qualifier or "") != sp:
             raise Violation("C18/wrong-identifier-shape", "transient for %s/%s came back as %r" % (u, sp, fields_of(nid)))
         self._issued(u, nid)
 
     def op_persistent(self, u, sp):
-        have = [x for x in self.m.live if x["user"] == u and x["fields"][2] == self.PERS and x["fields"][1] == sp and x["fields"][0] == NQ]
+        have = [x for x in self.m.live if x["user"] == u and x["fields"][2] == self.PERS and (x["fields"][1] or "") == sp and x["fields"][0] == NQ]
         nid = self.db.persistent_nameid(u, sp, NQ)
         f = fields_of(nid)
         if have:
             self.hit("persistent_stability_checked")
             if f[4] not in [x["text"] for x in have]:
                 # a non-transient identifier of another format for the same (user, sp) is what match_local_id may legitimately pick
-                others = [x for x in self.m.live if x["user"] == u and x["fields"][1] == sp and x["fields"][2] != self.TRANS]
+                others = [x for x in self.m.live if x["user"] == u and (x["fields"][1] or "") == sp and x["fields"][2] != self.TRANS]
                 if f[4] not in [x["text"] for x in others]:
                     raise Violation("C18/persistent-not-stable", "persistent identifier for %s at %s changed: %r not among %r" % (
                         u, sp, f[4], [x["text"] for x in have]))
@@ -123,11 +124,11 @@ class Harness(object):
         existing = [x for x in self.m.live if x["text"] == f[4]]
         if existing:
             x = existing[0]
-            if x["user"] != u or x["fields"][1] != sp:
+            if x["user"] != u or (x["fields"][1] or "") != sp:
                 raise Violation("C18/persistent-shared-across-users-or-sps",
                                 "persistent identifier asked for %s at %s is the live identifier of %s at %s" % (u, sp, x["user"], x["fields"][1]))
             return
-        if f[1] != sp:
+        if (f[1] or "") != sp:
             raise Violation("C18/wrong-identifier-shape", "persistent for %s/%s came back as %r" % (u, sp, f))
         self._issued(u, nid)
 
@@ -175,10 +176,10 @@ class Harness(object):
         if same:
             if same[0]["user"] != x["user"]:
                 raise Violation("C18/mapping-crossed-users", "mapping request for %s returned an identifier of %s" % (x["user"], same[0]["user"]))
-            if f[2] != fmt or f[1] != sp:
+            if f[2] != fmt or (f[1] or "") != sp:
                 raise Violation("C18/mapping-wrong-identifier", "asked (%s,%s) got %r" % (fmt, sp, f))
         else:
-            if f[2] != fmt or f[1] != sp:
+            if f[2] != fmt or (f[1] or "") != sp:
                 raise Violation("C18/mapping-wrong-identifier", "asked (%s,%s) got new %r" % (fmt, sp, f))
             self._issued(x["user"], out)
 
@@ -221,10 +222,10 @@ class Harness(object):
 
 # -------------------------------------------------------------------- case kinds
 
-def alphabet(h):
+def alphabet(h, sps=SPS):
     ops = []
     for u in USERS:
-        for sp in SPS:
+        for sp in sps:
             ops.append(("transient", u, sp))
             ops.append(("persistent", u, sp))
             ops.append(("construct", u, sp, h.PERS))
@@ -234,12 +235,12 @@ def alphabet(h):
         ops.append(("remove_remote", k))
         ops.append(("manage", k, "spid-1"))
         ops.append(("manage", k, ""))
-        for sp in SPS:
+        for sp in sps:
             ops.append(("mapping", k, h.PERS, sp))
     return ops
 
 
-def explore(prefix, depth, counters, seen, viols, sigs, budget):
+def explore(prefix, depth, counters, seen, viols, sigs, budget, sps=SPS, users=None):
     """DFS over histories extending `prefix` (list of op tuples) up to depth, replaying from scratch"""
     h = Harness({}, counters)
     try:
@@ -258,9 +259,11 @@ def explore(prefix, depth, counters, seen, viols, sigs, budget):
         counters["pruned_states"] = counters.get("pruned_states", 0) + 1
         return
     seen.add(st)
-    for op in alphabet(h):
+    for op in alphabet(h, sps):
+        if users is not None and op[0] in ("transient", "persistent", "construct", "remove_local") and op[1] not in users:
+            continue
         budget[0] -= 1
-        explore(prefix + [op], depth, counters, seen, viols, sigs, budget)
+        explore(prefix + [op], depth, counters, seen, viols, sigs, budget, sps, users)
 
 
 def hostile_field(rng):
@@ -276,6 +279,12 @@ def gen_cases(tier, seed):
     for i, op in enumerate(first):
         cases.append({"id": "exhaustive-d%d-first%02d" % (depth, i), "sig": ["exhaustive", depth, list(op)], "kind": "exhaustive",
                       "first": list(op), "depth": depth})
+    # the same exploration over one user and the SP alphabet {sp1, sp2, unqualified}
+    h2 = Harness({}, {})
+    first2 = [op for op in alphabet(h2, [SPS[0], SPS[1], ""]) if op[1] == USERS[0]]
+    for i, op in enumerate(first2):
+        cases.append({"id": "exhaustive-unqualified-d%d-first%02d" % (depth, i), "sig": ["exhaustive-unqualified", depth, list(op)], "kind": "exhaustive",
+                      "first": list(op), "depth": depth, "sps": [SPS[0], SPS[1], ""], "users": [USERS[0]]})
     nrand = 16 if tier == "quick" else 96
     for k in range(nrand):
         cases.append({"id": "random-%s-%d" % ("shelve" if k % 4 == 3 else "dict", k), "sig": ["random", k % 4 == 3, k], "kind": "random",
@@ -296,7 +305,7 @@ def run_case(case, ctx):
     rng = random.Random("%s/%s" % (ctx.seed, case["id"]))
     if kind == "exhaustive":
         budget = [400000]
-        explore([tuple(case["first"])], case["depth"], counters, set(), viols, sigs, budget)
+        explore([tuple(case["first"])], case["depth"], counters, set(), viols, sigs, budget, case.get("sps", SPS), case.get("users"))
         if budget[0] <= 0:
             counters["budget_exhausted"] = 1
     elif kind == "random":
@@ -304,7 +313,7 @@ def run_case(case, ctx):
         h = Harness(path, counters)
         try:
             for i in range(case["len"]):
-                ops = alphabet(h)
+                ops = alphabet(h, SPS_WIDE)
                 # bias towards growth early, removal later
                 op = rng.choice(ops)
                 if len(h.m.live) > 12:
